@@ -1,4 +1,5 @@
 import Gleece.Properties.C05
+import Gleece.Properties.Serve
 #print axioms Gleece.Router.conv_bits_match
 #print axioms Gleece.Router.conv_signedness
 #print axioms Gleece.Router.int_conversion_exact
@@ -8,3 +9,6 @@ import Gleece.Properties.C05
 #print axioms Gleece.Router.required_422
 #print axioms Gleece.Router.ill_typed_422
 #print axioms Gleece.IR.required_rule
+#print axioms Gleece.Serve.missing_required_never_called
+#print axioms Gleece.Serve.parseIntegral_unsigned_in_range
+#print axioms Gleece.Serve.bindAll_some_each
